@@ -162,7 +162,7 @@ Section StoreIdem.
     (forall ks o, wf_ks W ks -> f ks = KOk o -> f (upd o ks) = KOk None) ->
     batch_first_err st st f keys = (st1, r1) -> batch_first_err st1 st1 f keys = (st1, r1).
   Proof.
-    intros [Hs Hk] Hf E. destruct r1 as [[e|]| | | | | | |].
+    intros [Hs Hk] Hf E. destruct r1 as [[e|]|es0|es0 rs0|t0 c0 a0|t0|v0|ps0|ls0|mk0 mks0|].
     2:{ destruct (bfe_success st f Hs keys st st1 Hs E) as [H1 H2].
         apply bfe_all_none. intros k Hin. rewrite H2.
         assert (Hex : existsb (N.eqb k) keys = true) by (apply existsb_exists; exists k; split; [exact Hin|apply N.eqb_refl]).
